@@ -43,6 +43,8 @@ fn check(h: &Hnsw, cfg: &Cfg, model: &VecModel, alt: Option<&VecModel>, tally: &
         cfg.dim,
         model,
         alt,
+        // the wrapper does not expose the graph: no completeness bound here
+        None,
         tally,
     )
 }
@@ -276,6 +278,62 @@ fn read_fault_case(cfg: &Cfg, rec: &FlushRecord, j: u64, tally: &mut Tally) -> R
     }
 }
 
+/// The node object of `victim` is deleted from the completely flushed image
+/// (the store answers NotFound at reopen): `Hnsw::bootstrap` must succeed and
+/// answer at once from the surviving vectors; again after flush + bootstrap.
+fn lost_blob_case(cfg: &Cfg, rec: &FlushRecord, victim: u64, tally: &mut Tally) -> Result<(), (Fail, &'static str)> {
+    let mut phase = "lost_blob_reopen";
+    let r = no_panic(|| {
+        anda_db_utils::verif::set_random_seed(Some(199));
+        let mut content = rec.before.clone();
+        for m in &rec.journal {
+            apply(&mut content, m);
+        }
+        let suffix = format!("/n_{victim}.cbor");
+        let before = content.len();
+        content.retain(|k, _| !k.ends_with(&suffix));
+        if content.len() + 1 != before {
+            return Err(Fail::new("machinery", format!("expected exactly one object {suffix} in the flushed image")));
+        }
+        let mut expect = rec.current.clone();
+        expect.remove(victim);
+        let (store, _) = CtlStore::over(restore(&content));
+        let storage = connect(store)?;
+        let h = block_on(Hnsw::bootstrap(FIELD.to_string(), storage.clone())).map_err(|e| Fail::new("load_error", format!("Hnsw::bootstrap failed: {e}")))?;
+        phase = "lost_blob_after_reopen";
+        check(&h, cfg, &expect, None, tally)?;
+        if let Some(v) = expect.live.values().next() {
+            tally.searches += 1;
+            match h.try_search(v, 1) {
+                Ok(r) if !r.is_empty() => {}
+                other => return Err(Fail::new("empty_result", format!("{} vectors survive but search({v:?}, 1) answered {other:?}", expect.len()))),
+            }
+        }
+        phase = "lost_blob_after_reflush";
+        block_on(h.flush(30_001)).map_err(|e| Fail::new("flush_error", format!("Hnsw::flush failed: {e}")))?;
+        let h2 = block_on(Hnsw::bootstrap(FIELD.to_string(), storage.clone())).map_err(|e| Fail::new("load_error", format!("second Hnsw::bootstrap failed: {e}")))?;
+        check(&h2, cfg, &expect, None, tally)?;
+        Ok(())
+    });
+    r.map_err(|f| (f, phase))
+}
+
+fn lost_blob_violation(cfg: &Cfg, base: &str, seed: u64, ops: &[Op], victim: u64, phase: &str, f: &Fail) -> Violation {
+    Violation {
+        signature: format!("C12|wrapper|{}|{}|one_blob_lost", f.kind, phase),
+        summary: format!(
+            "[{}] base {} layer-seed {} history [{}] through anda_db::index::Hnsw, complete flush, object n_{victim}.cbor lost, reopen; phase {}: {}",
+            cfg.label(),
+            base,
+            seed,
+            ops_short(ops),
+            phase,
+            f.detail
+        ),
+        replay: json!({"cfg": cfg, "base": base, "seed": seed, "ops": ops, "k": null, "lost_blob": victim}),
+    }
+}
+
 fn read_fault_violation(cfg: &Cfg, base: &str, seed: u64, ops: &[Op], j: u64, phase: &str, label: &str, f: &Fail) -> Violation {
     let op = label.split(' ').next().unwrap_or("call");
     Violation {
@@ -340,6 +398,7 @@ struct Agg {
     histories: u64,
     cases: u64,
     read_fault_cases: u64,
+    lost_blob_cases: u64,
     searches: u64,
     max_journal: usize,
     distinct: BTreeSet<u64>,
@@ -383,6 +442,17 @@ fn run_item(item: &Item, deadline: Instant) -> Agg {
             agg.distinct.insert(util::fnv64(format!("{label}|{ck}|{mk}|{k}").as_bytes()));
             if let Err((f, phase)) = r {
                 push_violation(&mut agg, violation(&item.cfg, item.base, item.seed, ops, Some(&rec), k, phase, &f));
+            }
+        }
+        // every single node object of the completely flushed image lost
+        for victim in rec.current.live.keys().copied().collect::<Vec<_>>() {
+            let mut tally = Tally::default();
+            let r = lost_blob_case(&item.cfg, &rec, victim, &mut tally);
+            agg.lost_blob_cases += 1;
+            agg.searches += tally.searches;
+            agg.distinct.insert(util::fnv64(format!("{label}|{mk}|lost|{victim}").as_bytes()));
+            if let Err((f, phase)) = r {
+                push_violation(&mut agg, lost_blob_violation(&item.cfg, item.base, item.seed, ops, victim, phase, &f));
             }
         }
         // one read fault at every call of the reopen of the completely flushed image
@@ -444,6 +514,14 @@ fn main() {
                 println!("replay [{}] base {} seed {} [{}] -> {:?}", cfg.label(), base, seed, ops_short(&ops), f);
                 run.violation(violation(&cfg, &base, seed, &ops, None, 0, "history", &f));
             }
+            Ok((rec, _)) if r["lost_blob"].is_u64() => {
+                let victim = r["lost_blob"].as_u64().unwrap();
+                let res = lost_blob_case(&cfg, &rec, victim, &mut tally);
+                println!("replay [{}] base {} seed {} [{}] object n_{victim}.cbor lost -> {:?}", cfg.label(), base, seed, ops_short(&ops), res);
+                if let Err((f, phase)) = res {
+                    run.violation(lost_blob_violation(&cfg, &base, seed, &ops, victim, phase, &f));
+                }
+            }
             Ok((rec, _)) if r["read_fault"].is_u64() => {
                 let j = r["read_fault"].as_u64().unwrap();
                 let res = read_fault_case(&cfg, &rec, j, &mut tally);
@@ -504,6 +582,7 @@ fn main() {
             run.add("histories", a.histories);
             run.add("crash_cases", a.cases);
             run.add("read_fault_reopens", a.read_fault_cases);
+            run.add("lost_blob_reopens", a.lost_blob_cases);
             run.add("evaluations", a.searches);
             max_journal = max_journal.max(a.max_journal);
             for k in a.distinct {
@@ -539,7 +618,8 @@ fn main() {
         "histories as in parts hist/crash but executed through anda_db::index::Hnsw over Storage over a journalling in-memory object \
          store; the soundness oracle runs after every step; the final Hnsw::flush is journalled at the object store and for every k the \
          store content 'before + journal[0..k]' is restored into a fresh store, Hnsw::bootstrap (load_all + purge_orphan_node_blobs) must \
-         succeed, soundness after load / after the database's recovery / after a further flush + bootstrap; READ FAULTS: the completely \
+         succeed, soundness after load / after the database's recovery / after a further flush + bootstrap; LOST BLOB: the completely flushed image with each single node object deleted in turn must reopen and answer at once from the \
+         surviving vectors (oracle + count, no error / empty answer), also after flush + bootstrap; READ FAULTS: the completely \
          flushed image is reopened once per object-store call j of Hnsw::bootstrap with call j failing (ErrBefore), an erroring reopen is \
          retried once, a reopen that reports success must hold every flushed vector (oracle + count, self-reachability not worse than a \
          fault-free reopen), also after a further flush + bootstrap; evaluations = searches compared",
